@@ -189,6 +189,8 @@ func zzvSecretField(c *Config, s zzvSlot) *string {
 	switch s.Kind {
 	case "tls.key_pem":
 		return &c.TLS.KeyPEM
+	case "agent.display_name": // only used by the binding self-test (ZZV_CORRUPT)
+		return &c.Agent.DisplayName
 	case "agent.private_key":
 		return &c.Agent.PrivateKey
 	case "shell.password_hash":
@@ -317,6 +319,7 @@ func TestZZVRedact(t *testing.T) {
 	zzvLoad(t, "ZZV_IN", &in)
 	seed := zzvSeed()
 	reps := zzvEnvInt("ZZV_REPS", 1)
+	corrupt := zzvEnvInt("ZZV_CORRUPT", 0) == 1
 	mixed := zzvEnvInt("ZZV_MIXED", 200) // extra configurations with an independent random class per string
 
 	// which value classes break the marshal/unmarshal round trip of the YAML library (spec constant CopyBreaking)
@@ -377,15 +380,15 @@ func TestZZVRedact(t *testing.T) {
 			classes[s] = cl
 			*f = zzvGen(rng, cl, markers[s])
 		}
-		snap := zzvDeepCopy(reflect.ValueOf(cfg)).Interface().(*Config)
-		out := cfg.String()
-		red := cfg.Redacted()
-		evals++
-		if len(out) > maxOut {
-			maxOut = len(out)
+		if corrupt { // self-test of the binding: a field the code does not mask is declared secret
+			s := zzvSlot{"agent.display_name", 0}
+			markers[s] = "ZZSECRETCORRUPTQ"
+			classes[s] = "ascii"
+			cfg.Agent.DisplayName = "x" + markers[s]
 		}
+		snap := zzvDeepCopy(reflect.ValueOf(cfg)).Interface().(*Config)
 		// self-test of the detector: in the unredacted rendering every marker must be recognised
-		unsafe := zzvNewView(cfg.StringUnsafe())
+		unsafe := zzvNewView(snap.StringUnsafe())
 		for s, m := range markers {
 			if !unsafe.leaks(m) {
 				blind++
@@ -393,6 +396,12 @@ func TestZZVRedact(t *testing.T) {
 					zzvEmit("blind", map[string]any{"slot": s, "class": classes[s], "value": fmt.Sprintf("%q", *zzvSecretField(cfg, s))})
 				}
 			}
+		}
+		out := cfg.String()
+		red := cfg.Redacted()
+		evals++
+		if len(out) > maxOut {
+			maxOut = len(out)
 		}
 		view := zzvNewView(out)
 		var leaked []string
